@@ -215,18 +215,20 @@ def r06_1(ctx: Ctx, rep: Report) -> None:  # noqa: C901
         for ty in types:
             if plat == "nxos" and ty == "standard":
                 continue
-            rep.instance()
-            (se, text), = render_table(folder, ctx.cfg(wa), wa, [{"self._platform": plat, "self._type": ty, "self._name": "NAME"}])
-            pats = _call_regex_under(ctx, cp_acls, plat)
-            ok = False
-            for p in pats:
-                m = _re.findall(p, text)
-                if m and isinstance(m[0], tuple) and m[0][-1] == "NAME" and m[0][0].strip() in ("", ty):
-                    ok = (m[0][0].strip() == ty) if plat == "ios" else True
-            if ok:
-                rep.ok(f"ConfigParser.acls reads {text!r}", f"type and name recovered by {pats}", where=where(cp_acls))
-            else:
-                rep.violation("ConfigParser.acls", f"{pats} on {text!r}", "the section pattern does not recover type and name from the header the Acl renders", where(cp_acls))
+            # NAME, and names that begin with a type keyword (legal ACL names; on NX-OS the header has no type word)
+            for name_w in ("NAME", "extended-in", "standard1"):
+                rep.instance()
+                (se, text), = render_table(folder, ctx.cfg(wa), wa, [{"self._platform": plat, "self._type": ty, "self._name": name_w}])
+                pats = _call_regex_under(ctx, cp_acls, plat)
+                ok = False
+                for p in pats:
+                    m = _re.findall(p, text)
+                    if m and isinstance(m[0], tuple) and m[0][-1] == name_w and m[0][0].strip() in ("", ty):
+                        ok = (m[0][0].strip() == ty) if plat == "ios" else (m[0][0].strip() == "")
+                if ok:
+                    rep.ok(f"ConfigParser.acls reads {text!r}", f"type and name recovered by {pats}", where=where(cp_acls))
+                else:
+                    rep.violation("ConfigParser.acls", f"{pats} on {text!r}", "the section pattern does not recover type and name from the header the Acl renders (a name that begins with a type keyword is cut)", where(cp_acls), inp=f"ip access-list {name_w} on {plat}")
         rep.instance()
         (se, text), = render_table(folder, ctx.cfg(wg), wg, [{"self._platform": plat, "self._name": "NAME"}])
         pats = _call_regex_under(ctx, cp_add, plat)
